@@ -24,6 +24,7 @@ type Scenario struct {
 	Thorough int // deviation bound of the thorough tier
 	Level    int // shard level for the thorough tier (default 2)
 	Desc     string
+	Expect   []string // litmus scenarios: the complete set of OUTCOME labels over all schedules
 }
 
 var registry = map[string]*Scenario{}
@@ -63,7 +64,8 @@ type Report struct {
 	Executions     int64          `json:"executions"`
 	DupExecutions  int64          `json:"dup_executions"` // executions above the shard level, run by every shard
 	Transitions    int64          `json:"transitions"`
-	Evaluations    int64          `json:"evaluations"` // inputs enumerated inside executions (vrt.AddEvaluations)
+	Evaluations    int64          `json:"evaluations"`
+	Labels         map[string]int `json:"labels,omitempty"` // OUTCOME labels logged by litmus drivers // inputs enumerated inside executions (vrt.AddEvaluations)
 	States         int            `json:"states"`
 	Outcomes       int            `json:"distinct_outcomes"`
 	OutcomeHashes  []uint64       `json:"outcome_hashes,omitempty"`
@@ -143,6 +145,21 @@ func (e *explorer) check(x *Exec, res *Result, choices []int32, devs int, counte
 		e.rep.MaxThreads = x.nthreads
 	}
 	e.rep.Status[res.Status.String()]++
+	if e.sc.Expect != nil {
+		label := ""
+		for _, ev := range res.Events {
+			if ev.Kind == "OUTCOME" {
+				label += ev.Str(0) + ";"
+			}
+		}
+		if res.Status != StOK {
+			label += res.Status.String()
+		}
+		if e.rep.Labels == nil {
+			e.rep.Labels = map[string]int{}
+		}
+		e.rep.Labels[label]++
+	}
 	hk := eventHash(res)
 	_, seen := e.outcomes[hk]
 	e.outcomes[hk] = struct{}{}
@@ -388,7 +405,7 @@ func WorkerMain() int {
 		for _, n := range regOrder {
 			sc := registry[n]
 			b, _ := json.Marshal(map[string]any{"name": n, "props": sc.Props, "quick": sc.Quick, "thorough": sc.Thorough,
-				"level": sc.Level, "desc": sc.Desc})
+				"level": sc.Level, "desc": sc.Desc, "expect": sc.Expect})
 			fmt.Println(string(b))
 		}
 		return 0
